@@ -82,11 +82,11 @@ fn main() {
         "c09" => {
             let sh = shard::parse_shard(&args);
             if sh.is_some() || replay.is_some() || std::env::var("VERIF_NOSHARD").is_ok() {
-                c09::run(&tier, seed, replay.as_deref(), sh)
+                c09::run(&tier, seed, replay.as_deref(), sh, &drv)
             } else {
                 let mut rep = report::Report::new("c09", c09::rule());
                 let n = par::threads().min(8);
-                let pass: Vec<String> = vec!["--tier".into(), tier.clone(), "--seed".into(), seed.to_string()];
+                let pass: Vec<String> = vec!["--tier".into(), tier.clone(), "--seed".into(), seed.to_string(), "--drv".into(), drv.clone()];
                 let secs = if tier == "thorough" { 3000 } else { 600 };
                 shard::run_sharded(&mut rep, "c09", &pass, n, std::time::Duration::from_secs(secs), "c09:operation-hangs");
                 rep.rule = c09::rule().to_string();
